@@ -333,6 +333,7 @@ def run(argv):
                     chk.traces += 1
     dedup_then_render_check(chk)
     half_open_dedup_check(chk)
+    ice_window_check(chk)
     moved_boundary_check(chk)
     # KROME bound reader vs model
     if getattr(chk, "lean_ok", False):
@@ -421,6 +422,49 @@ def moved_boundary_check(chk):
                               f"is {want}", input=lines, written=(d / "edited.naunet").read_text().splitlines(),
                               guards=[c for _, _, c in stmts])
                 break
+
+
+def ice_window_check(chk):
+    """The window of a reaction is a window of the *gas* temperature, whatever phase its reactants are in: a Leeds network (the one
+    format that has a dust temperature of its own) with a windowed photoprocess of an ice is rendered and its guards are evaluated
+    with the dust at 20 K while the gas temperature crosses the bounds."""
+    from naunet.network import Network
+    from .ode_checks import reset_species_state
+    from . import netgen
+    d = chk.scratch / "ice-window"
+    d.mkdir(parents=True, exist_ok=True)
+    lines = [netgen.leeds_line(1, ["CO"], ["C", "O"], a=2.0e-10, c=3.5, rtype=4),
+             netgen.leeds_line(2, ["GCO"], ["GC", "GO"], a=3.0e-10, c=3.5, lt=10, ht=300, rtype=4),
+             netgen.leeds_line(3, ["GCO"], ["GC", "GO"], a=4.0e-10, c=3.5, lt=300, ht=1000, rtype=4),
+             netgen.leeds_line(4, ["GH2O", "GH2O"], ["GH2O", "GOH", "GH"], a=5.0e-10, lt=100, ht=5500, rtype=1)]
+    (d / "ice.leeds").write_text("\n".join(lines) + "\n")
+    reset_species_state()
+    try:
+        with silenced():
+            net = Network(filelist=[str(d / "ice.leeds")], fileformats=["leeds"], elements=["H", "C", "N", "O"], pseudo_elements=["CR", "CRP", "Photon", "PHOTON"],
+                          species_kwargs={"surface_prefix": "G"})
+            render(net, "dense", d / "dense")
+        stmts = Rendered(d / "dense", "dense").rates("k")
+    except Exception as e:
+        chk.hist["ice-window-refused:" + type(e).__name__] += 1
+        return
+    chk.count(("ice-window",), nontrivial=True)
+    chk.hist["ice-window"] += 1
+    wins = {1: (None, None), 2: (10.0, 300.0), 3: (300.0, 1000.0), 4: (100.0, 5500.0)}
+    for T in [5.0, 10.0, 20.0, 150.0, 299.9, 300.0, 999.0, 1000.0, 5000.0, 6000.0]:
+        for (i, rhs, cond), (lo, hi) in zip(stmts, [wins[k] for k in sorted(wins)]):
+            try:
+                on = bool(ceval.ev(cparse.parse_expr(cond), {"Tgas": T, "Tdust": 20.0})) if cond else True
+            except Exception as e:
+                chk.violation({"kind": "ice-window-guard", "error": type(e).__name__}, f"guard `{cond}` of an ice-phase reaction cannot be "
+                              f"evaluated from the gas temperature", input=lines)
+                return
+            want = (lo is None or T >= lo) and (hi is None or T < hi)
+            if on != want:
+                chk.violation({"kind": "ice-window-guard"},
+                              f"reaction {i + 1} of a Leeds network (window {lo}..{hi} K) is {'active' if on else 'inactive'} at Tgas={T!r} "
+                              f"with the dust at 20 K: its guard is `{cond}`", input=lines)
+                return
 
 
 def half_open_dedup_check(chk):
